@@ -77,6 +77,8 @@ def run(ctx):
             prob = "a spa other than the requested identifier is listed"
         elif r["duration"] > 10.0 + 0.1 + sum(dt for _, dt in stalls) + 0.35:
             prob = "discovery returned after %.2f s (timeout 10 s)" % r["duration"]
+        elif not ids_listed and fid is None and faddr is None and r["duration"] < 10.0 - 0.2:
+            prob = "discovery returned after %.2f s with nothing listed: before the timeout, although no spa had answered" % r["duration"]
         elif not r["closed"] or r["loc_tasks_left"]:
             prob = "endpoint not closed / helper tasks still alive on return (%s)" % r["loc_tasks_left"]
         else:
